@@ -5,6 +5,8 @@ of LaTeX field values, plus the token-level view of a rendering.
 
 * `plainPairs` / `plainText`  the characters of a string of (atom, markup) pairs, symbols replaced by text
 * `symbolText`                what the three symbols pybtex uses mean (Unicode)
+* `plainSymbolSpec` / `plainSymbol`, `mdSymbolSpec`, `latexSymbolSpec`  what each backend has to write for the three symbols
+                              (fixed here; the regenerated tables of the backends must agree: `symbolsAgree`, `symbolsAllowed`)
 * `Html.read` / `htmlChars`   a strict reader of the HTML fragment the backend may emit: un-escapes
                               `&amp; &lt; &gt; &ndash; &nbsp;`, follows open / close tags with a stack,
                               fails on anything else (stray `<`, `>`, `&`, mismatched or unclosed tag)
@@ -12,6 +14,9 @@ of LaTeX field values, plus the token-level view of a rendering.
 * `Md.escChar`, `Md.unescape` a character as it has to be emitted / the reader that undoes it
 * `Tex.depthsFrom` / `Tex.depths`  every non-brace character of a LaTeX string with its brace depth
 * `Tex.splitAtClose`, `Tex.lastBraceEnd`, `Tex.unbalancedAt`  where a LaTeX value stops being balanced
+* `Tex.optArg`                TeX's reading of the optional argument `[label]` of `\\bibitem`
+* `Tex.special`, `Tex.passThrough`, `Tex.readText`  LaTeX's reading of a piece of *text*: the characters it typesets, `none`
+                              as soon as something in it acts as markup
 * `RTok`, `RTok.flatten`, `RTok.read`  token-level rendering: markup-open | markup-close | text; the reader
                               checks that markup tokens are well nested and returns each atom with the
                               markup that encloses it
@@ -71,6 +76,34 @@ def symbolText (n : Str) : Option Str :=
   else if n = "nbsp".toList then some [Char.ofNat 0xa0]
   else if n = "newblock".toList then some ['\n']
   else none
+
+/-- **plain text**: the plain equivalents of the three symbols -- a hyphen for the en dash, a blank for the no-break space, a
+blank between the blocks of an entry.  Fixed here; the table of the plain-text backend has to agree (`C09_tables`). -/
+def plainSymbolSpec : List (Str × Str) :=
+  [("ndash".toList, ['-']), ("nbsp".toList, [' ']), ("newblock".toList, [' '])]
+
+def plainSymbol (n : Str) : Option Str := plainSymbolSpec.lookup n
+
+/-- **Markdown**: what the backend may write for a symbol -- the entity or the character itself for the en dash (both are
+named in the source of the backend), a blank or the entity / character for the no-break space, a line break between blocks.
+Read by a Markdown processor, each stands for the symbol's text (`symbolText`) or its plain equivalent. -/
+def mdSymbolSpec : List (Str × List Str) :=
+  [("ndash".toList, ["&ndash;".toList, [Char.ofNat 0x2013]]),
+   ("nbsp".toList, [[' '], "&nbsp;".toList, [Char.ofNat 0xa0]]),
+   ("newblock".toList, [['\n']])]
+
+/-- **LaTeX**: the ligature `--`, the tie `~`, and `\newblock` on a new line -/
+def latexSymbolSpec : List (Str × Str) :=
+  [("ndash".toList, "--".toList), ("nbsp".toList, ['~']), ("newblock".toList, "\n\\newblock ".toList)]
+
+/-- a regenerated symbol table agrees with a fixed one: same symbols, same texts (order is irrelevant for a dict) -/
+def symbolsAgree (tbl spec : List (Str × Str)) : Bool :=
+  tbl.all (fun p => spec.lookup p.1 == some p.2) && spec.all (fun p => tbl.lookup p.1 == some p.2)
+
+/-- a regenerated symbol table offers, for every symbol of the fixed table and no other, one of the allowed texts -/
+def symbolsAllowed (tbl : List (Str × Str)) (spec : List (Str × List Str)) : Bool :=
+  tbl.all (fun p => match spec.lookup p.1 with | some l => l.contains p.2 | none => false) &&
+    spec.all (fun p => (tbl.lookup p.1).isSome)
 
 /-- the characters of a string of pairs, each with its markup, every symbol replaced by the text
 `sym` gives for it; `none` if `sym` does not know a symbol -/
@@ -280,6 +313,81 @@ def unbalancedAt (s : Str) : Option Nat :=
   match splitAtClose 0 s with
   | some (before, _) => some (before.length + 1)
   | none => if balanced s then none else some (lastBraceEnd s)
+
+/-! #### the optional argument of `\\bibitem` -/
+
+/-- scan an optional argument, started behind the `[`, `d` = braces open: the raw argument and the text behind the `]`
+that ends it -- the first `]` outside braces -/
+def optArgScan : Nat → Str → Option (Str × Str)
+  | _, [] => none
+  | d, c :: r =>
+    if c = ']' ∧ d = 0 then some ([], r)
+    else if c = '{' then (optArgScan (d + 1) r).map fun p => (c :: p.1, p.2)
+    else if c = '}' then
+      (match d with
+       | 0 => none
+       | d' + 1 => (optArgScan d' r).map fun p => (c :: p.1, p.2))
+    else (optArgScan d r).map fun p => (c :: p.1, p.2)
+
+/-- TeX removes one level of braces from a delimited argument that is a single group as a whole -/
+def stripGroup (a : Str) : Str :=
+  match a with
+  | '{' :: r =>
+    (match splitAtClose 0 r with
+     | some (m, []) => m
+     | _ => a)
+  | _ => a
+
+/-- **TeX's reading of `[label]`**, started behind the `[`: the label and the text behind the `]` -/
+def optArg (s : Str) : Option (Str × Str) := (optArgScan 0 s).map fun p => (stripGroup p.1, p.2)
+
+/-! #### text that does not act as markup -/
+
+/-- the characters whose category code in LaTeX is neither "letter" nor "other": escape, begin / end group, math shift,
+superscript, parameter, comment, alignment tab, subscript, active -/
+def special : List Char := ['\\', '{', '}', '$', '^', '#', '%', '&', '_', '~']
+
+/-- the characters of `special` that latexcodec leaves alone (the known limit of the LaTeX backend) -/
+def passThrough : List Char := ['\\', '{', '}', '$', '^']
+
+/-- the control symbols that stand for a character: `\#` is `#`, … -/
+def escapedSymbols : List Char := ['#', '$', '%', '&', '_', '{', '}']
+
+/-- the control words that stand for a character -/
+def textWords : List (Str × Char) := [("textasciitilde".toList, '~')]
+
+/-- a letter for TeX's tokeniser (category code 11) -/
+def isLetter (c : Char) : Bool := isAlpha c
+
+/-- **LaTeX's reading of a piece of text**: the characters it typesets, `none` as soon as something in it is not typeset
+as the character it is.  An ordinary character stands for itself; a special character on its own is markup; a backslash
+starts a control sequence: a control symbol `\#  \$  \%  \&  \_  \{  \}` stands for the character, `\ ` for a blank,
+a control word is the maximal run of letters, swallows the blanks behind it, and stands for a character only if it is one
+of `textWords`; everything else is markup. -/
+def readText (s : Str) : Option Str :=
+  match s with
+  | [] => some []
+  | c :: r =>
+    if c = '\\' then
+      match r with
+      | [] => none
+      | x :: r' =>
+        if isLetter x then
+          match textWords.lookup ((x :: r').takeWhile isLetter) with
+          | some ch => (readText (((x :: r').dropWhile isLetter).dropWhile (· == ' '))).map (ch :: ·)
+          | none => none
+        else if x ∈ escapedSymbols ∨ x = ' ' then (readText r').map (x :: ·)
+        else none
+    else if c ∈ special then none
+    else (readText r).map (c :: ·)
+termination_by s.length
+decreasing_by
+  · have h1 := (List.dropWhile_sublist (p := fun c => c == ' ') (l := (x :: r').dropWhile isLetter)).length_le
+    have h2 := (List.dropWhile_sublist (p := isLetter) (l := x :: r')).length_le
+    simp only [List.length_cons] at h2 ⊢
+    omega
+  · simp only [List.length_cons]; omega
+  · simp only [List.length_cons]; omega
 
 end Tex
 
